@@ -31,7 +31,7 @@ def optJ (o : Option Str) : Json := match o with | some s => jstr s | none => Js
 def gridToJson (g : List (List Str)) : Json := Json.arr (g.map fun r => Json.arr (r.map jstr).toArray).toArray
 
 def instToJson (i : Inst) : Json :=
-  Json.mkObj [("id", jstr i.name), ("src", optJ i.src), ("kind", jstr i.kind),
+  Json.mkObj [("id", jstr i.name), ("src", optJ i.src), ("kind", jstr i.kind), ("xml", jstr (instText i)),
     ("items", if i.kind = c!"choice" then Json.arr (i.items.map pairsToJson).toArray else Json.null)]
 
 def selToJson (s : SelObs) : Json :=
